@@ -16,6 +16,10 @@ THEOREMS = [
     "Mpc.Sym.coarse_separates",
     "Mpc.Sym.C04_tweak_reuse_leaks",
     "Mpc.Sym.C04_stream_partial",
+    "Mpc.Sym.C04_stream_restart_leaks",
+    "Mpc.Sym.C04_stream_restart_rows",
+    "Mpc.Sym.C04_stream_is_whole",
+    "Mpc.streamGarble_persistent",
     "Mpc.Sym.C04_both_labels_leak",
 ]
 
